@@ -411,7 +411,26 @@ class Resolver:
             elif k == 'alt':
                 out.append(('alt', [(a[0], self._reresolve(f, a[1], depth)) + tuple(a[2:]) for a in n[1]]))
             elif k == 'rep':
-                out.append(('rep', n[1], n[2], self._reresolve(f, n[3], depth)) + tuple(n[4:]))
+                items = self._reresolve(f, n[3], depth)
+                elems = list(n[4]) if len(n) > 4 and n[4] is not None else None
+                if elems is not None:
+                    # a captured vector of token streams (or a call that builds one) can only be described in the creator's terms
+                    changed = False
+                    for i_, s_ in enumerate(n[1]):
+                        info = elems[i_] if i_ < len(elems) else None
+                        b_ = self._peel((info or {}).get('base', s_)) if isinstance(info, dict) else self._peel(s_)
+                        vec_call = b_[0] == 'call' and b_[1] in self.P.fns and TS in self.P.fns[b_[1]].raw.get('output', '') and 'Vec<' in self.P.fns[b_[1]].raw.get('output', '')
+                        vec_var = b_[0] == 'var' and f.local_ty(b_[1]).replace('&', '').startswith('std::vec::Vec<') and TS in f.local_ty(b_[1])
+                        if isinstance(info, dict) and info.get('kind') == 'iter' and info.get('elem') is None and (vec_call or vec_var):
+                            ni = self.rep_source(f, s_, depth + 1)
+                            if ni and (ni.get('kind') == 'vec' or ni.get('elem') is not None):
+                                elems[i_] = ni
+                                changed = True
+                    if changed:
+                        items = [(('elem', x[1], x[2], elems[x[1]] if x[1] < len(elems) else None) if (x[0] == 'elem') else x) for x in items]
+                    out.append(('rep', n[1], n[2], items, elems) + tuple(n[5:]))
+                else:
+                    out.append(('rep', n[1], n[2], items) + tuple(n[4:]))
             else:
                 out.append(n)
         return out
@@ -564,6 +583,45 @@ class Resolver:
                 # a helper that returns the vector of token streams: its (conditional) pushes, in the caller's terms
                 g = self.P.fns[cur[1]]
                 exs = [strip(x['expr']) for x in g.exits()]
+                if len(exs) == 1 and exs[0][0] == 'call':
+                    # a literal table of (condition, identifier) pairs, filtered by the condition and mapped to the identifier:
+                    # [(c1, "A"), (c2, "B")].into_iter().filter(|(c, _)| *c).map(|(_, n)| ident(n)) is the list of conditional
+                    # pushes `if c1 { push(A) } if c2 { push(B) }`
+                    ee = strip(expand(g, exs[0], keep=lambda ty: TS in ty))
+                    tbl = None
+                    if ee[0] == 'call' and ee[3].endswith('Iterator::collect'):
+                        mp = strip(ee[2][0])
+                        if mp[0] == 'call' and mp[3].endswith('Iterator::map') and len(mp[2]) == 2:
+                            fl_ = strip(mp[2][0])
+                            if fl_[0] == 'call' and fl_[3].endswith('Iterator::filter') and len(fl_[2]) == 2:
+                                srcx = strip(fl_[2][0])
+                                while srcx[0] == 'call' and srcx[2] and re.search(r'(into_iter|::iter)$', srcx[1]):
+                                    srcx = strip(srcx[2][0])
+                                if srcx[0] == 'array' and all(isinstance(it_, tuple) and it_[0] == 'tuple' and len(it_[1]) == 2 for it_ in srcx[1]):
+                                    tbl = (srcx[1], fl_[2][1], mp[2][1])
+                    if tbl:
+                        rows, fclo, mclo = tbl
+                        fc, mc = self.P.fns.get(fclo[1]) if fclo[0] == 'closure' else None, self.P.fns.get(mclo[1]) if mclo[0] == 'closure' else None
+                        items = []
+                        okt = fc is not None and mc is not None and len(fc.exits()) == 1 and len(mc.exits()) == 1 and not fc.switches() and not mc.switches()
+                        if okt:
+                            fb = strip(fc.exits()[0]['expr'])
+                            mb = strip(mc.exits()[0]['expr'])
+                            # filter body must be the pair's first component, map body ident(second component)
+                            okt = fb[0] == 'field' and fb[2] == '0' and strip(fb[1])[0] == 'arg'
+                            mb2 = mb
+                            while mb2[0] == 'call' and mb2[2] and re.search(r'(into_token_stream|to_token_stream|::into|::clone)$', mb2[1]):
+                                mb2 = strip(mb2[2][0])
+                            okt = okt and mb2[0] == 'call' and mb2[1].endswith('str_to_ident') and strip(mb2[2][0])[0] == 'field' and strip(mb2[2][0])[2] == '1'
+                        if okt:
+                            for it_ in rows:
+                                c_e, n_e = strip(it_[1][0]), strip(it_[1][1])
+                                if n_e[0] != 'str':
+                                    okt = False
+                                    break
+                                items.append(((subst_args(c_e, cur[2]), True), [('tok', n_e[1])]))
+                        if okt and items:
+                            return {'kind': 'vec', 'vec': ('vec', items), 'base': cur, 'chain': chain}
                 if len(exs) == 1 and exs[0][0] == 'var':
                     v = self._vec(g, exs[0][1], depth + 1)
                     if v[1]:
